@@ -1165,7 +1165,7 @@ class Interp:
         # a < b <= c : evaluate operands left to right; all operands here are evaluated eagerly
         # (python would short-circuit; operands with side effects in chains are outside the subset).
         operands = [node.left] + list(node.comparators)
-        if len(operands) > 2 and not all(self._pure_expr(o) for o in operands[1:]):
+        if len(operands) > 2 and not all(self._pure_expr(o) for o in operands[2:]):  # the first two are always evaluated
             yield from self._compare_chain_lazy(st, node.ops, operands)
             return
         for st1, vs in self.ev_many(operands, st):
@@ -1192,6 +1192,23 @@ class Interp:
                     if k + 1 == len(ops):
                         yield st2, t
                         continue
+                    if is_z3(t) and self.feasible(st2, t) and self.feasible(st2, z3.Not(t)) and not any(
+                            isinstance(n, ast.NamedExpr) for o in operands[k + 2:] for n in ast.walk(o)):
+                        # no fork when the rest of the chain, evaluated under the assumption that it is reached, has one
+                        # outcome, does not raise and changes nothing: the chain is then the conjunction
+                        trial = st2.fork()
+                        trial.pc.append(t)
+                        n0 = len(trial.pc)
+                        try:
+                            outs = list(rec(trial, k + 1, right))
+                        except Unsupported:
+                            outs = []
+                        if (len(outs) == 1 and not isinstance(outs[0][1], Exc) and is_boollike(outs[0][1])
+                                and self._same_store(st2, outs[0][0])):
+                            for c in outs[0][0].pc[n0:]:
+                                st2.pc.append(z3.Implies(t, c))
+                            yield st2, z3.And(t, z3val(outs[0][1]))
+                            continue
                     for st3, b in self.branch(st2, t):
                         if b:
                             yield from rec(st3, k + 1, right)
@@ -1205,8 +1222,12 @@ class Interp:
                 yield from rec(st0, 0, first)
 
     def _pure_expr(self, node):
+        # operands of a comparison CHAIN that may be evaluated eagerly although CPython evaluates them only when every
+        # earlier comparison was true: only expressions that can neither raise nor have an effect (names, constants,
+        # + - * and unary operators on them).  Subscripts, attributes (properties), division ... take the lazy route.
         for n in ast.walk(node):
-            if isinstance(n, (ast.Call, ast.Yield, ast.Await, ast.NamedExpr)):
+            if not isinstance(n, (ast.Name, ast.Constant, ast.BinOp, ast.UnaryOp, ast.Add, ast.Sub, ast.Mult, ast.USub, ast.UAdd,
+                                  ast.Not, ast.Load, ast.Tuple)):
                 return False
         return True
 
@@ -1368,7 +1389,7 @@ class Interp:
 
     def ev_ListComp(self, node, st):
         acc = st.alloc(ListE([]))
-        saved = set(st.frame.vars)
+        saved = self._comp_saved(node, st)
 
         def leaf(s):
             for s1, v in list(self.ev(node.elt, s)):
@@ -1383,9 +1404,30 @@ class Interp:
             yield st1, (r if isinstance(r, Exc) else acc)
 
     def _drop_comp_vars(self, st, saved):
+        # a comprehension has its own scope: its loop variables neither survive it nor overwrite a variable of the same
+        # name in the enclosing function (saved: name -> value before the comprehension)
         for k in list(st.frame.vars):
             if k not in saved:
                 del st.frame.vars[k]
+        for k in getattr(saved, "targets", ()):
+            if k in saved:
+                st.frame.vars[k] = saved[k]
+
+    @staticmethod
+    def _comp_saved(node, st):
+        """variables of the current frame before a comprehension, with the names its `for` clauses bind (walrus targets
+        inside a comprehension DO bind in the enclosing scope and are not restored)"""
+        class _Saved(dict):
+            pass
+
+        saved = _Saved(st.frame.vars)
+        names = set()
+        for g in node.generators:
+            for n in ast.walk(g.target):
+                if isinstance(n, ast.Name):
+                    names.add(n.id)
+        saved.targets = names
+        return saved
 
     def ev_GeneratorExp(self, node, st):
         self.trust("genexp-eager", "generator expressions are evaluated eagerly (pure element expressions)")
@@ -1410,7 +1452,7 @@ class Interp:
 
     def ev_DictComp(self, node, st):
         acc = st.alloc(DictE())
-        saved = set(st.frame.vars)
+        saved = self._comp_saved(node, st)
 
         def leaf(s):
             for s1, kv in self.ev_many([node.key, node.value], s):
